@@ -94,54 +94,50 @@ def r_cv(ctx, model):
 
 
 def r_shear(ctx, model):
-    owner, f, kind = model.find_member(SHEAR, "value_adiabatic")
-    if f is None:
-        raise AnalysisError("anchor vanished: Shear...value_adiabatic")
-    ctx.fn(f"{SHEAR}.value_adiabatic")
-    body = [s for s in body_wo_doc(f) if not is_logging_stmt(s)]
-    ok = len(body) == 1 and isinstance(body[0], ast.Return) and src(body[0].value) == f"{f.args.args[0].arg}.value_isothermal"
-    ctx.check(ok, "shear value_adiabatic is value_isothermal", model.where(f"{SHEAR}.value_adiabatic", f),
-              expected="return self.value_isothermal", found="; ".join(src(s) for s in body)[:200],
-              explanation="for components with a Voigt index 4-6 adiabatic and isothermal values must be identical",
-              key="shear.value_adiabatic")
-    # tasks.calculate: shear inputs come from the isothermal store only
-    ref = f"{TASKLIST}.calculate"
-    c = model.func(ref)
-    ctx.fn(ref)
-    selfn = c.args.args[0].arg
+    """the whole task list is folded (as in C04) for all 21 components with the longitudinal/off-diagonal classes replaced by
+    one isothermal and one adiabatic atom per (class, strain fractions): for every key with a Voigt index 4-6 the expression
+    that lands in the adiabatic result is identical to the one in the isothermal result (so it contains no adiabatic atom: the
+    solver's inputs come from the isothermal store), whichever way value_adiabatic / the getters / calculate are written"""
+    from .C04 import fold, canon, same_expr, PHAD
+    from ..facts import KEYS21
+    from ..sym import RaisedV
+    w = model.where(f"{SHEAR}.value_adiabatic")
+    for name in (f"{SHEAR}.value_adiabatic", f"{TASKLIST}.calculate", f"{TASK}.get_modulus_isothermal", f"{TASK}.get_modulus_adiabatic"):
+        ctx.fn(name)
     n = 0
-    for st in ast.walk(c):
-        if isinstance(st, ast.Assign) and len(st.targets) == 1 and isinstance(st.targets[0], ast.Attribute) \
-                and st.targets[0].attr in ("modulus_results", "modulus_results_rotated"):
+    for rev in (False, True):
+        try:
+            ev, tl, g, iso, ad, e = fold(ctx, model, list(KEYS21), rev)
+        except RaisedV as ex:
+            raise AnalysisError(f"assembling the 21 components raises {ex.exc_name} at {ex.where} (property C04 reports it)")
+        isod = {k.name: v for k, v in iso.d.items()}
+        add = {k.name: v for k, v in ad.d.items()}
+        for key in KEYS21:
+            if int(key[1]) <= 3 and int(key[2]) <= 3:
+                continue
+            if key not in isod or key not in add:
+                raise AnalysisError(f"{key} receives no value (property C04 reports it)")
             n += 1
-            stores = {x.attr for x in ast.walk(st.value) if isinstance(x, ast.Attribute) and isinstance(x.value, ast.Name)
-                      and x.value.id == selfn and x.attr.startswith("modulus_")}
-            ctx.check(stores == {"modulus_isothermal_values"}, f"task.{st.targets[0].attr} source", model.where(ref, st),
-                      expected="self.modulus_isothermal_values only", found=str(sorted(stores)),
-                      explanation="a shear task's known components must come from the isothermal store; feeding the "
-                                  "adiabatic store makes shear adiabatic != isothermal", key=f"calculate.{st.targets[0].attr}")
-    ctx.floor("assignments of shear inputs in calculate", n, 2)
-    # both getters of the task assign the same two dictionaries
-    for g in ("get_modulus_isothermal", "get_modulus_adiabatic"):
-        gref = f"{TASK}.{g}"
-        gf = model.func(gref)
-        ctx.fn(gref)
-        sn = gf.args.args[0].arg
-        pairs = {}
-        for st in ast.walk(gf):
-            if isinstance(st, ast.Assign) and isinstance(st.targets[0], ast.Attribute) and src(st.targets[0].value) == f"{sn}.calculator":
-                pairs[st.targets[0].attr] = src(st.value)
-        if set(pairs) != {"modulus", "modulus_rotated"}:
-            raise AnalysisError(f"{g}: the stores calculator.modulus / calculator.modulus_rotated were not found")
-        ctx.check(pairs == {"modulus": f"{sn}.modulus_results", "modulus_rotated": f"{sn}.modulus_results_rotated"},
-                  f"{g} feeds modulus/modulus_rotated", model.where(gref, gf),
-                  expected="calculator.modulus = self.modulus_results; calculator.modulus_rotated = self.modulus_results_rotated",
-                  found=str(pairs), explanation="the shear solver's two lookup tables are not fed from the task's "
-                                                "original-frame and rotated-frame results respectively", key=f"{g}.feed")
+            a, i_ = canon(add[key]), canon(isod[key])
+            same = same_expr(a, i_)
+            has_ad = any(isinstance(x, PHAD) for x in sp.preorder_traversal(a))
+            iso_ad = any(isinstance(x, PHAD) for x in sp.preorder_traversal(i_))
+            ctx.check(not has_ad and not iso_ad, f"{key} ({'last' if rev else 'first'}-ready order): built from isothermal dependencies only", model.where(f"{TASKLIST}.calculate"),
+                      expected="no adiabatic longitudinal/off-diagonal value enters a shear component",
+                      found=f"adiabatic inputs in the {'adiabatic' if has_ad else ''}{' and ' if has_ad and iso_ad else ''}{'isothermal' if iso_ad else ''} result" if has_ad or iso_ad else "none",
+                      explanation=f"{key}: the shear solver receives adiabatic dependencies, so the adiabatic-isothermal gap of the longitudinal/off-diagonal "
+                                  f"components leaks into a component whose gap must be zero", key=f"shear.{key}.{rev}.inputs")
+            ctx.check(same, f"{key} ({'last' if rev else 'first'}-ready order): adiabatic result = isothermal result", w,
+                      expected="the same expression in both result stores (isothermal inputs only)",
+                      found="identical" if same else ("the adiabatic result is built from adiabatic inputs" if has_ad else short(a - i_, 200)),
+                      explanation=f"for {key} (a Voigt index 4-6) the adiabatic and isothermal phonon contributions differ: the shear solver is fed "
+                                  f"from the adiabatic store or value_adiabatic is not value_isothermal", key=f"shear.{key}.{rev}")
+    ctx.floor("shear components compared in both stores", n, 30)
+    ctx.exhaustive = True
 
 
 RULES = [
     ("R02.1-3", "gap = T V (dP/dT)^2/(9 e_i e_j C_V) (normal form), adiabatic = isothermal + gap, gap masked at T = 0", r_gap),
-    ("R02.5", "shear adiabatic is the isothermal attribute; shear tasks are fed from the isothermal store only", r_shear),
+    ("R02.5", "task list folded for all 21 components: every shear component's adiabatic result is the same expression as its isothermal result", r_shear),
     ("R02.6", "C_V is qha's volumetric heat capacity cv_tv_au", r_cv),
 ]
